@@ -1182,14 +1182,14 @@ def png_info_copies(rep, fns):
 
 def lockstep_bounds(rep, fns):
     """R15: a loop that walks two views in step and bounds the walk by one of them reads the other one out of bounds as soon as it is the smaller."""
-    rep.rule("R15 tiff reader::read_palette_image(dst, indices, rgb16): every loop whose body reads through an iterator taken from the index view (2nd parameter) is bounded by the "
+    rep.rule("R15 tiff reader::read_palette_image(dst, indices): every loop whose body reads through an iterator taken from the index view (2nd parameter) is bounded by the "
              "index view's extent -- its condition, after inlining single-assignment locals, mentions the index view (directly or inside a min) -- because check_image_size() "
              "admits a destination larger than the picture")
     seen = set()
     for f in fns:
-        if fmt_of(f) != "tiff" or "::".join(f["name"].split("::")[-2:]) != "reader::read_palette_image" or len(f["params"]) != 3:
+        if fmt_of(f) != "tiff" or "::".join(f["name"].split("::")[-2:]) != "reader::read_palette_image" or len(f["params"]) not in (2, 3):
             continue
-        if "true" not in f["params"][2]["type"] or f.get("line") in seen:
+        if (len(f["params"]) == 3 and "true" not in f["params"][2]["type"]) or f.get("line") in seen:
             continue
         seen.add(f.get("line"))
         g = R.canonize(f)
